@@ -212,7 +212,9 @@ struct Lab {
     bool all_actors_finished() const { return remaining.load() == 0; }
     void barrier(int me, int& counter, int total) {
         counter++;
-        while (counter < total) ctl.pass(me);
+        // the not-yet-started participants get the token through pass(); once everybody runs, wait by
+        // sleeping in virtual time (a pure pass() loop would never let the clock advance)
+        while (counter < total) { ctl.pass(me); if (counter < total) photon::thread_usleep(20); }
     }
     struct EntryArg { Lab* lab; int i; };
     std::vector<EntryArg> entry_args;
@@ -239,7 +241,9 @@ struct Lab {
                                                 photon::THREAD_JOINABLE | (actors[i].stealable ? photon::THREAD_ENABLE_WORK_STEALING : 0));
                 actor_th[i] = th;
             }
-        while (!all_actors_finished()) photon::thread_usleep(-1UL);
+        // woken by the last actor's thread_interrupt(); the finite period only covers the window in which
+        // that interrupt finds this thread still RUNNING on its way to sleep (it is then dropped)
+        while (!all_actors_finished()) photon::thread_usleep(50000);
         for (size_t i = 0; i < actors.size(); i++)
             if (actors[i].vcpu == v) photon::thread_join((photon::join_handle*)actor_th[i]);
         if (vcpu_teardown) vcpu_teardown(v);
